@@ -25,7 +25,8 @@ def sh(cmd, cwd=None, timeout=1800):
 
 def tests():
     rc, out = sh(f'{PY} -m pytest -q -p no:cacheprovider -rA tests 2>&1 | grep -E "^(PASSED|FAILED|ERROR)" | sort', cwd=REPO)
-    return out
+    # outcome and test id only: the message of a test that fails anyway (optional FST library missing) may differ
+    return '\n'.join(line.split(' - ')[0] for line in out.splitlines())
 
 
 def main():
